@@ -14,8 +14,8 @@ ID = "C10"
 COQ_IMPORT = "Corr.CNodes"
 COQ_CASE_TYPE = "g_case"
 COQ_CHECK = "g_check"
-THEOREMS = ["c10_terminates", "c10_fuel_bound", "c10_fuel_irrelevant", "c10_step_frame", "c10_names", "c10_frame", "c10_untouched", "c10_graph_frame", "c10_idempotent", "c10_idempotent_canonical"]
-PROOF_FILES = ["Proofs/InferProofs.v", "Proofs/IdemProofs.v", "Proofs/InferSimProofs.v"]
+THEOREMS = ["c10_terminates", "c10_fuel_bound", "c10_fuel_irrelevant", "c10_step_frame", "c10_names", "c10_frame", "c10_untouched", "c10_graph_frame", "c10_idempotent", "c10_idempotent_canonical", "c10_names_are_opaque"]
+PROOF_FILES = ["Proofs/InferProofs.v", "Proofs/IdemProofs.v", "Proofs/InferSimProofs.v", "Proofs/RenameProofs.v"]
 RULE = ("directed multigraphs over {Input, typed leaves, untyped Conv/Pool/Flatten, Output, rarely nested graphs} "
         "with cycles, self-loops, parallel edges, fan-in/out, unreachable components, edges into Inputs / out of "
         "Outputs, dangling endpoints; random to 12 nodes / 30 edges plus consistent graphs with erasures; thorough: "
